@@ -81,17 +81,19 @@ def case_strategy():
 
 
 def aliases_of(path, dlinks, flinks):
-    """all spellings (relative to the root) of an in-root file"""
-    out = [path, "./" + path]
-    d = os.path.dirname(path)
-    if d:
-        out.append(d + "/../" + os.path.basename(d) + "/" + os.path.basename(path))
-    for ln, tgt in dlinks.items():
-        if path.startswith(tgt + "/"):
-            out.append(ln + path[len(tgt):])
-    for ln, tgt in flinks.items():
-        if tgt == path:
-            out.append(ln)
+    """all spellings (relative to the root) of an in-root file, including file links
+    that are themselves reached through a directory link"""
+    base = [path] + [ln for ln, tgt in flinks.items() if tgt == path]
+    out = list(base)
+    for b in base:
+        for ln, tgt in dlinks.items():
+            if b.startswith(tgt + "/"):
+                out.append(ln + b[len(tgt):])
+    for b in list(out):
+        d = os.path.dirname(b)
+        out.append("./" + b)
+        if d:
+            out.append(d + "/../" + os.path.basename(d) + "/" + os.path.basename(b))
     return out
 
 
